@@ -565,12 +565,15 @@ def _header_exprs (s):
   return [c for c in ast.iter_child_nodes(s) if isinstance(c, ast.expr)]
 
 LOGGING = ('debug', 'info', 'warn', 'warning', 'error', 'exception', 'critical', 'log')
+LOG_ANY_RECEIVER = ('msg', 'err', 'info', 'debug', 'warn', 'warning', 'error', 'exception')   # Connection.msg/err/info, logger methods
 def _impure_call_in (exprs):
   for e in exprs:
     for n in ast.walk(e):
       if isinstance(n, ast.Call):
         f = n.func
         if isinstance(f, ast.Attribute) and f.attr in LOGGING and _base_text(f.value).split('.')[-1] in ('log', 'logger', 'logging'): continue
+        if isinstance(f, ast.Attribute) and f.attr in LOG_ANY_RECEIVER: continue
+        if isinstance(f, ast.Name) and f.id == 'print': continue
         if isinstance(f, ast.Name) and f.id in PURE_FUNCS: continue
         if isinstance(f, ast.Attribute) and f.attr in PURE_METHODS: continue
         return True
